@@ -1,20 +1,24 @@
 import Driver.Ts
+import Driver.Orswot
 /- `dcdriver`: reads a case file on stdin, answers every line with the model's output. -/
 namespace Driver
 
 inductive Dom where
   | none
   | ts (s : TsDom.State)
+  | orswot (s : OrswotDom.State)
 
-def newDom (name : String) (_params : List String) : Dom :=
+def newDom (name : String) (params : List String) : Dom :=
   match name with
   | "ts" => .ts {}
+  | "orswot" => .orswot (OrswotDom.init params)
   | _ => .none
 
 def stepDom (d : Dom) (toks : List String) : Dom × String :=
   match d with
   | .none => (d, "bad-op")
   | .ts s => let (s', o) := TsDom.step s toks; (.ts s', o)
+  | .orswot s => let (s', o) := OrswotDom.step s toks; (.orswot s', o)
 
 partial def loop (h : IO.FS.Stream) (out : IO.FS.Stream) (d : Dom) : IO Unit := do
   let line ← h.getLine
